@@ -20,7 +20,9 @@ type History struct {
 	Keys  []string // the columns of the last ordering/grouping/de-duplication step
 }
 
-func (h History) String() string { return fmt.Sprintf("history %v focus %q keys %q", h.Route, h.Focus, h.Keys) }
+func (h History) String() string {
+	return fmt.Sprintf("history %v focus %q keys %q", h.Route, h.Focus, h.Keys)
+}
 
 // histNullifyF etc. are the functions a history step overwrites a column with: they bring back nulls and repeats.
 func histNullifyF(x float64) float64 {
